@@ -144,17 +144,40 @@ async def agc_{i}(nxt, pre):
             await trap("pre")
         await nxt
 
+async def cx_{i}(nxt, pre):
+    if pre:
+        await trap("pre")
+    async with Exiter(nxt):
+        pass
+        pre = None
+    return pre
+
 async def af_{i}(agen, pre):
     if pre:
         await trap("pre")
     async for _ in agen:
         pass
 '''
-NS = {"types": types, "trap": trap}
+class Exiter(object):
+    """async manager whose __aexit__ awaits the rest of the chain: the frame that owns the `async with` is then
+    suspended while leaving the block (on 3.9 its line is the last line of the body, later the with line)"""
+
+    def __init__(s, nxt):
+        s.nxt = nxt
+
+    async def __aenter__(s):
+        return s
+
+    async def __aexit__(s, *exc):
+        await s.nxt
+        return False
+
+
+NS = {"types": types, "trap": trap, "Exiter": Exiter}
 for _i in range(8):
     exec(compile(SRC.format(i=_i), "<chain%d>" % _i, "exec"), NS)
 
-AW_KINDS = ["co", "gco", "wrap", "awgen", "asend", "anext", "afor", "athrow", "aclose", "asendv"]
+AW_KINDS = ["co", "gco", "wrap", "awgen", "asend", "anext", "afor", "athrow", "aclose", "asendv", "aexit"]
 GEN_KINDS = ["yf"]
 GENLIKE = (types.CoroutineType, types.GeneratorType, types.AsyncGeneratorType)
 
@@ -242,6 +265,8 @@ def build(kinds, end, outer, pre):
             inner = AwCoroWrapper(ch.reg(NS["co_" + d](inner, pre)))
         elif k == "awgen":
             inner = AwGen(ch.reg(NS["co_" + d](inner, pre)))
+        elif k == "aexit":
+            inner = ch.reg(NS["cx_" + d](inner, pre))
         elif k == "asend":
             inner = ch.reg(NS["ag_" + d](inner, pre)).asend(None)
         elif k == "anext":
